@@ -136,6 +136,41 @@ impl Run {
             Run::Wasm(w) => w.rt.io_channels(),
         }
     }
+    /// one sample, also returning the runtime's return code (VM: number of words dsp returned)
+    pub fn step_rc(&mut self, t: u64, input: &[f64]) -> Result<(i64, Vec<f64>), RunErr> {
+        let och = self.io().map_or(0, |io| io.output as usize);
+        let r = catch(|| match self {
+            Run::Vm(v) => {
+                v.count.store(t, Ordering::Relaxed);
+                if !input.is_empty() {
+                    v.rd.set_input(input);
+                }
+                let rc = v.rd.run_dsp(Time(t));
+                (rc, v.rd.get_output(och).to_vec(), None)
+            }
+            Run::Wasm(w) => {
+                if !input.is_empty() {
+                    w.rt.set_input(input);
+                }
+                let rc = w.rt.run_dsp(Time(t));
+                if rc < 0 {
+                    // run_dsp only logs the engine's error: fetch it
+                    let args: Vec<u64> = input.iter().map(|v| v.to_bits()).collect();
+                    if let Err(e) = w.rt.engine_mut().execute_dsp(&args) {
+                        return (rc, vec![f64::NAN; 0], Some(e));
+                    }
+                }
+                (rc, w.rt.get_output(och).to_vec(), None)
+            }
+        });
+        let r = r.map(|x| x);
+        match r {
+            Ok((rc, out, _)) if rc >= 0 => Ok((rc, out)),
+            Ok((rc, _, Some(e))) => Err(RunErr::Crash(format!("run_dsp returned {rc}: {e}"))),
+            Ok((rc, _, None)) => Err(RunErr::Crash(format!("run_dsp returned {rc}"))),
+            Err(m) => Err(RunErr::Crash(format!("panic: {m}"))),
+        }
+    }
     /// one sample: returns output words
     pub fn step(&mut self, t: u64, input: &[f64]) -> Result<Vec<f64>, RunErr> {
         let och = self.io().map_or(0, |io| io.output as usize);
